@@ -178,4 +178,147 @@ theorem delimitAll_call (cs : List ArgCall) (rest : List Tok) (h : wfCall cs res
       | cons a2 as2 =>
         rw [delimitAll_ros _ _ (by simp), ih', endsAbsent_cons_cons]
 
+
+/-! ### the whole of `Macro.parse`: delimit, then cast -/
+
+/-- the types whose argument is first delimited by its spec and then cast (all but the TeX-style scanner types and `Tok`) -/
+def delimTy : Ty → Bool
+  | .tNumber | .tDimen | .tGlue | .token => false
+  | _ => true
+
+/-- the cast of these tokens for this argument yields `v` and leaves the stream alone -/
+def CastsTo (a : Arg) (toks : List Tok) (v : Val) : Prop := ∀ r, cast a toks r = .ok (v, r)
+
+theorem readArgument_absent (a : Arg) (ts0 r : List Tok) (h : delimTy a.ty = true)
+    (hd : delimit a.spec (readOptionalSpaces ts0) = (none, r)) :
+    readArgument a ts0 = .ok (.absent, some [], r) := by
+  unfold readArgument
+  cases hty : a.ty <;> simp_all [delimTy]
+
+theorem readArgument_present (a : Arg) (ts0 toks r r' : List Tok) (v : Val) (h : delimTy a.ty = true)
+    (hd : delimit a.spec (readOptionalSpaces ts0) = (some toks, r)) (hc : cast a toks r = .ok (v, r')) :
+    readArgument a ts0 =
+      .ok (v, some ((readOptionalSpaces ts0).take ((readOptionalSpaces ts0).length - r.length)), r') := by
+  unfold readArgument
+  cases hty : a.ty <;> simp_all [delimTy]
+
+theorem readArgument_present' (a : Arg) (ts0 toks r r' : List Tok) (v : Val) (h : delimTy a.ty = true)
+    (hd : delimit a.spec (readOptionalSpaces ts0) = (some toks, r)) (hc : cast a toks r = .ok (v, r')) :
+    ∃ s, readArgument a ts0 = .ok (v, s, r') := ⟨_, readArgument_present a ts0 toks r r' v h hd hc⟩
+
+theorem readArgument_ros (a : Arg) (ts : List Tok) : readArgument a (readOptionalSpaces ts) = readArgument a ts := by
+  simp only [readArgument, ros_idem]
+
+theorem parse_ros (as : List Arg) (ts : List Tok) (h : as ≠ []) : parse as (readOptionalSpaces ts) = parse as ts := by
+  cases as with
+  | nil => exact absurd rfl h
+  | cons a as => simp only [parse, readArgument_ros]
+
+/-- one declared argument together with what the call writes for it and the value it must be bound to -/
+structure Bound where
+  arg : Arg
+  call : ArgCall
+  val : Val
+
+def Bound.ok (b : Bound) : Prop :=
+  b.arg.spec = b.call.spec ∧ delimTy b.arg.ty = true ∧
+  (match b.call.content with
+   | none => b.val = .absent
+   | some toks => CastsTo b.arg toks b.val)
+
+/-- **`Macro.parse` binds every declared argument exactly once, in order, to the cast of what the call writes at its
+    position** (absent optional arguments to nothing), and leaves exactly what follows the call. -/
+theorem parse_binds (bs : List Bound) (rest : List Tok) (hb : ∀ b ∈ bs, b.ok)
+    (hw : wfCall (bs.map (·.call)) rest = true) :
+    ∃ srcs, parse (bs.map (·.arg)) (renderCall (bs.map (·.call)) ++ rest) =
+      .ok (bs.map (·.val), srcs,
+           if endsAbsent (bs.map (·.call)) then readOptionalSpaces rest else rest) ∧ srcs.length = bs.length := by
+  induction bs with
+  | nil => exact ⟨[], by simp [parse, renderCall, endsAbsent], rfl⟩
+  | cons b bs ih =>
+    obtain ⟨hspec, hty, hval⟩ := hb b (List.mem_cons_self)
+    simp only [List.map_cons, wfCall, Bool.and_eq_true] at hw
+    obtain ⟨⟨hwa, hwas⟩, hab⟩ := hw
+    obtain ⟨srcs, ih', hlen⟩ := ih (fun x hx => hb x (List.mem_cons_of_mem _ hx)) hwas
+    simp only [List.map_cons, parse, renderCall, List.append_assoc]
+    cases hc : b.call.content with
+    | some toks =>
+      rw [hc] at hval
+      obtain ⟨s0, hs0⟩ := readArgument_present' b.arg (renderArg b.call ++ (renderCall (bs.map (·.call)) ++ rest)) toks _ _ b.val hty
+        (by rw [hspec]; exact delimit_present b.call toks _ hwa hc) (hval _)
+      rw [hs0]
+      simp only [ih']
+      refine ⟨s0 :: srcs, ?_, ?_⟩
+      · cases hbs : bs.map (·.call) with
+        | nil => simp [endsAbsent_single, hc, endsAbsent]
+        | cons a2 as2 => rw [endsAbsent_cons_cons]
+      · simp [hlen]
+    | none =>
+      rw [hc] at hval
+      have hren : renderArg b.call = [] := by simp [renderArg, hc]
+      have habs : delimit b.call.spec (readOptionalSpaces (renderCall (bs.map (·.call)) ++ rest)) =
+          (none, readOptionalSpaces (renderCall (bs.map (·.call)) ++ rest)) := by
+        rw [hc] at hab
+        cases hs : b.call.spec with
+        | tok => simp [wfArg, hs, hc] at hwa
+        | chr c => rw [hs] at hab; exact delimit_absent_chr c _ (by simpa using hab)
+        | pair bb e => rw [hs] at hab; exact delimit_absent_pair bb e _ (by simpa using hab)
+      rw [hren, List.nil_append, readArgument_absent b.arg _ _ hty (by rw [hspec]; exact habs)]
+      simp only [hval]
+      cases hbs : bs with
+      | nil =>
+        subst hbs
+        refine ⟨[some []], ?_, rfl⟩
+        simp [parse, renderCall, endsAbsent_single, hc]
+      | cons b2 bs2 =>
+        subst hbs
+        rw [parse_ros _ _ (by simp)]
+        simp only [List.map_cons] at ih' ⊢
+        rw [ih']
+        refine ⟨some [] :: srcs, ?_, ?_⟩
+        · rw [endsAbsent_cons_cons]
+        · simp [hlen]
+
+
+theorem parse_append (as bs : List Arg) : ∀ (ts r r' : List Tok) (vs vs' : List Val) (ss ss' : List (Option (List Tok))),
+    parse as ts = .ok (vs, ss, r) → parse bs r = .ok (vs', ss', r') →
+    parse (as ++ bs) ts = .ok (vs ++ vs', ss ++ ss', r') := by
+  induction as with
+  | nil =>
+    intro ts r r' vs vs' ss ss' h1 h2
+    simp only [parse, Except.ok.injEq, Prod.mk.injEq] at h1
+    obtain ⟨rfl, rfl, rfl⟩ := h1
+    simpa using h2
+  | cons a as ih =>
+    intro ts r r' vs vs' ss ss' h1 h2
+    simp only [parse] at h1
+    cases hra : readArgument a ts with
+    | error e => simp [hra] at h1
+    | ok x =>
+      obtain ⟨v, s, r1⟩ := x
+      simp only [hra] at h1
+      cases hp : parse as r1 with
+      | error e => simp [hp] at h1
+      | ok y =>
+        obtain ⟨vs1, ss1, r2⟩ := y
+        simp only [hp, Except.ok.injEq, Prod.mk.injEq] at h1
+        obtain ⟨rfl, rfl, rfl⟩ := h1
+        have := ih r1 r2 r' vs1 vs' ss1 ss' hp h2
+        simp [parse, hra, this]
+
+/-- the argument loop with one more argument of any type (e.g. a TeX-style scanner type) in last position -/
+theorem parse_binds_last (bs : List Bound) (a : Arg) (tail r' : List Tok) (v : Val) (s : Option (List Tok))
+    (hb : ∀ b ∈ bs, b.ok) (hw : wfCall (bs.map (·.call)) tail = true)
+    (hlast : readArgument a tail = .ok (v, s, r')) :
+    ∃ srcs, parse (bs.map (·.arg) ++ [a]) (renderCall (bs.map (·.call)) ++ tail) =
+      .ok (bs.map (·.val) ++ [v], srcs ++ [s], r') ∧ srcs.length = bs.length := by
+  obtain ⟨srcs, hp, hlen⟩ := parse_binds bs tail hb hw
+  refine ⟨srcs, ?_, hlen⟩
+  apply parse_append _ _ _ _ _ _ _ _ _ hp
+  have : readArgument a (if endsAbsent (bs.map (·.call)) then readOptionalSpaces tail else tail) = .ok (v, s, r') := by
+    split
+    · rw [readArgument_ros]; exact hlast
+    · exact hlast
+  simp [parse, this]
+
 end PlasVerif.Proofs.Args
